@@ -81,6 +81,8 @@ func checkHist(h histCase) *vt.Fail {
 	for i := range m.stored {
 		m.stored[i] = -1
 	}
+	var handles [2]*cache.Cache
+	cur := 0
 	for step, o := range h.Ops {
 		if o.ID < 0 || o.ID >= nIDs || o.C < 0 || o.C >= cachekit.NContents {
 			continue
@@ -122,6 +124,17 @@ func checkHist(h histCase) *vt.Fail {
 			if err != nil {
 				return vt.Failf("reopen-failed", "step %d: %v", step, err)
 			}
+		case "switch":
+			// continue through the other of two Cache handles on the same directory (what one handle stored, damaged
+			// files included, is what the other sees: nothing may be remembered per handle)
+			handles[cur] = c
+			cur ^= 1
+			if handles[cur] == nil {
+				if handles[cur], err = cache.Open(d); err != nil {
+					return vt.Failf("reopen-failed", "step %d: %v", step, err)
+				}
+			}
+			c = handles[cur]
 		case "outputfile":
 			want := cachekit.DataPath(d, cachekit.Sum(content))
 			var got string
@@ -305,8 +318,8 @@ func genHist(t *rapid.T) histCase {
 			o.Op = "putnoverify"
 		case 5:
 			o.Op = "lookup"
-		case 6:
-			o.Op = rapid.SampledFrom([]string{"reopen", "outputfile"}).Draw(t, "misc")
+		case 6, 7:
+			o.Op = rapid.SampledFrom([]string{"switch", "reopen", "outputfile", "switch"}).Draw(t, "misc")
 		default:
 			o.Op = "damage"
 			o.Tgt = rapid.SampledFrom([]string{"index", "data", "data"}).Draw(t, "tgt")
